@@ -170,6 +170,34 @@ B7 = {
  "C18-11": ("C18", "loss and re-establishment of the control connection while clients send OPTIONS / system reads", "Cluster.Info reassigned on every reconnect while client read loops read it"),
  "C19-9": ("C19", "an endpoint that has once been shown a chain containing the intermediate, then a server presenting only a leaf under it", "intermediates pool kept per endpoint across handshakes: incomplete chain accepted"),
 }
+B8 = {
+ "C01-11": ("C01", "a second goroutine calling Send() on a backend connection while its reader is inside Closing()", "Closing() notifies the pending requests before it sets the closing flag: a request registered in between is accepted and never notified"),
+ "C01-12": ("C01", "a request sent on a failed backend connection whose reader has not yet run Closing(), with Conn.Write taking the closed branch", "Send() calls the request's OnClose itself on a write failure - under the request mutex its caller holds: the client's read loop deadlocks"),
+ "C02-8": ("C02", "a retryable error response when no host can take the retry (plan used up, connections gone), then the client reusing the stream", "executeInternal reports 'not sent', so the backend's error frame is sent in addition to the 'exhausted query plan' error: two frames on one stream"),
+ "C04-11": ("C04", "a non-idempotent request coalesced in a write pass behind a large request, pushed out by a buffer-full flush and applied, then the connection lost before the pass ends", "'never flushed' marks are only cleared after the explicit flush: an applied request counts as unsent and is re-sent"),
+ "C05-12": ("C05", "an idempotent request in flight on a connection the proxy closes itself (idle timeout, host removed)", "OnClose with error Closed answers a server error instead of moving on to the next host"),
+ "C06-11": ("C06", "concurrent classification with more than 128 distinct statements in circulation", "verdict memo: slot number looked up lock-free, slot read under the mutex without re-checking its owner: another statement's verdict returned"),
+ "C07-9": ("C07", "the backend answers the proxy's own USE on new pooled connections with OVERLOADED / IS_BOOTSTRAPPING", "those errors treated as non-critical when the pool connects: session reported connected, client told SET_KEYSPACE for a keyspace no connection confirmed"),
+ "C08-9": ("C08", "a host that lacks the statement refuses its re-PREPARE once, then a later EXECUTE of the id on the same backend connection", "'being prepared' marker of the coalescing map only removed on success: later requests park behind an answered PREPARE forever"),
+ "C09-11": ("C09", "a USE the backend rejects, then unqualified system-table names", "client keyspace assigned before the session is created and not restored on failure: routing decisions made for the rejected keyspace"),
+ "C10-8": ("C10", ">= 2 contact points, the first passing handshake and system queries but not listed under its own address, the second differing in DC / release / DSE-ness", "'initial' derived from NegotiatedVersion == 0, which the failed first attempt already set: cluster facts stay those of the first contact point"),
+ "C10-10": ("C10", "multi-DC backend, no data center configured, system.peers answered before system.local", "system tables queried concurrently, local DC taken from hosts[0] in arrival order"),
+ "C11-8": ("C11", "a decoded BATCH still in use when the next BATCH is decoded (override, retry, idempotency check)", "children appended into a pooled scratch slice that is returned to the pool while the result still points into it"),
+ "C11-10": ("C11", "one malformed BATCH (invalid child kind) on the bytes.Buffer path, then >= 2 goroutines decoding on that path", "pooled reader released twice on that error path: two decoders share one reader"),
+ "C12-9": ("C12", "a SELECT evicted from the proxy's prepared cache, an UNPREPARED error passed through to one client, then another client executing the id at a listed consistency", "UNPREPARED pass-through deletes the shared prepared-id metadata: prepared SELECT treated as a write"),
+ "C13-9": ("C13", "STARTUP with an unknown compression (ERROR), then STARTUP without compression on the same connection, then a forwarded request", "compression name stored before it is validated: later requests look for a session with the rejected compression"),
+ "C13-11": ("C13", "an accepted frame first, then a frame of an unsupported version on the same connection", "version check done only until the connection's first accepted frame"),
+ "C15-13": ("C15", "a topology event reaching the proxy between the control node reading its peers table for a refresh and the refresh finishing", "events waiting when a refresh returns are dropped as 'already covered'"),
+ "C16-8": ("C16", "a topology change announced during a control-connection fail-over, after the new connection's system tables were read", "events queued during the outage discarded after the reconnect"),
+ "C16-10": ("C16", "a refresh query answered with an error on a healthy control connection while reconnects keep failing", "control connection set to nil on that path: the branch that starts the outage clock is skipped"),
+ "C17-11": ("C17", "the backend rejects the proxy's handshake for a client's (version, compression) combination; the second request with that combination", "failed session remembered as a nil map entry that the read-locked fast path returns: nil dereference, process dies"),
+ "C18-12": ("C18", "removal of a host that is not last, with a request whose plan predates it walking on afterwards", "host deleted in place in the slice shared with handed-out plans"),
+ "C18-13": ("C18", ">= 2 connections per host and a backend connection lost while requests are routed to that host", "pool reads ClientConn.closing holding only its own lock"),
+ "C19-8": ("C19", ">= 2 handshakes through one endpoint overlapping at verification with the same bad chain", "single-flight verification whose deferred finish() captured err == nil: waiters are told the chain verified"),
+ "C19-10": ("C19", "a good connection (ticket received), the same server process then holding a bad certificate, a reconnect", "ClientSessionCache added while verification lives in VerifyPeerCertificate with InsecureSkipVerify: resumed sessions skip every check"),
+ "C20-5": ("C20", ">= 2 contact points, the first negotiated down to a lower version and then failing at its last step, the second supporting the configured version", "handshake start version taken from state the failed attempt left behind: proxy runs at the lower version"),
+}
+B7.update(B8)
 B6.update(B7)
 B5.update(B6)
 B4.update(B5)
@@ -200,7 +228,7 @@ for sid in sorted(os.listdir(os.path.join(V, "seeded"))):
         demos = sorted(f for f in os.listdir(d) if f not in ("patch.diff", "meta.json", "notes.md"))
         meta = {
             "id": sid, "breaks_property": prop,
-            "origin": "fresh sub-agent given only the property text and a scratch worktree of /repo (commit %s)" % ("19163b6 (round 7)" if sid in B7 else "19163b6 (round 6)" if sid in B6 else "19163b6" if sid in B5 else "78cb41b" if sid in B4 else "98f4792" if sid in B3 else "2fe6b89"),
+            "origin": "fresh sub-agent given only the property text and a scratch worktree of /repo (commit %s)" % ("dd3f42b (round 8)" if sid in B8 else "19163b6 (round 7)" if sid in B7 else "19163b6 (round 6)" if sid in B6 else "19163b6" if sid in B5 else "78cb41b" if sid in B4 else "98f4792" if sid in B3 else "2fe6b89"),
             "needs_to_manifest": needs, "effect": effect, "demonstration": demos,
             "confirmed": "bin/seedconfirm in the scratch worktree: patch applies, go build ok, existing suite passes with it (in a private network namespace), demonstration FAILS with the patch and PASSES without it",
             "checks_run": "bin/seedtest seeded/%s/patch.diff quick %s ; bin/seedmatrix quick" % (sid, prop),
